@@ -564,7 +564,10 @@ class Polygon(Shape2D):
             (np.sum(points[:-1] * points[:-1], axis=1) / 2, [0])
         )
         x, resids, _, _ = np.linalg.lstsq(points, half_point_lengths, None)
-        if len(self.vertices) > 3 and not np.isclose(resids, 0):
+        # The residual (a length to the fourth power) is compared with the extent
+        # of the shape so that the test does not depend on its length scale.
+        extent_sq = np.sum(np.ptp(self.vertices, axis=0) ** 2)
+        if len(self.vertices) > 3 and not np.isclose(resids / extent_sq**2, 0):
             raise RuntimeError("No circumcircle for this polygon.")
 
         return Circle(np.linalg.norm(x), x + self.vertices[0])
@@ -629,7 +632,10 @@ class Polygon(Shape2D):
         )
 
         x, resids, _, _ = np.linalg.lstsq(a, b, None)
-        if len(self.vertices) > 3 and not np.isclose(resids, 0):
+        # The residual (a squared length) is compared with the extent of the shape
+        # so that the test does not depend on its length scale.
+        extent_sq = np.sum(np.ptp(self.vertices, axis=0) ** 2)
+        if len(self.vertices) > 3 and not np.isclose(resids / extent_sq, 0):
             raise RuntimeError("No incircle for this polygon.")
 
         return Circle(x[3], x[:3])
